@@ -16,7 +16,20 @@
 
 #include "e2fsck/recovery.c"
 #ifndef VF_NO_REVOKE
+/* STUB: hash_64() (jfs_user.h: 64-bit golden-ratio multiply, SAT-hostile) is replaced inside revoke.c by stub_hash_64():
+ * by default the low bits of the block number; revoke_table.c substitutes an ARBITRARY function and hash_range checks the real one's range */
+static __u32 stub_hash_64(__u64 val, unsigned int bits);
+#ifndef VF_REAL_HASH
+#define hash_64(v, b) stub_hash_64(v, b)
+#endif
 #include "e2fsck/revoke.c"
+#undef hash_64
+#ifndef VF_OWN_HASH
+static __u32 stub_hash_64(__u64 val, unsigned int bits)
+{
+	return (__u32) (val & ((1u << bits) - 1));
+}
+#endif
 #endif
 
 /* ------------------------------------------------------------------ devices */
@@ -86,7 +99,7 @@ struct buffer_head *getblk(kdev_t kdev, unsigned long long blocknr, int blocksiz
 static void stub_dev_read(struct buffer_head *bh, struct vf_slot *s)
 {
 	unsigned p, i;
-	unsigned char tmp[B];
+	static unsigned char tmp[B];
 
 	if (s == &vf_s2)
 		return;
